@@ -23,6 +23,8 @@ type Program struct {
 	fset    *token.FileSet
 	funcs   map[string]*ssa.Function // key → function (all functions of loaded packages, incl. closures)
 	dryMemo map[*ssa.Function]map[*ssa.BasicBlock]map[string]bool
+	dryOld  map[*ssa.Function]map[string]bool // components a function may write on pre-existing objects
+	dryOldB map[*ssa.Function]map[*ssa.BasicBlock]map[string]bool
 	drySorts map[string]string
 	dryStructs map[string]types.Type
 	repo    string
@@ -54,7 +56,7 @@ func loadProgram(repo string, patterns []string, specDir string) (*Program, erro
 	}
 	prog, spkgs := ssautil.Packages(pkgs, ssa.GlobalDebug|ssa.InstantiateGenerics)
 	p := &Program{pkgs: pkgs, prog: prog, spkgs: spkgs, cs: newContractSet(), funcs: map[string]*ssa.Function{},
-		dryMemo: map[*ssa.Function]map[*ssa.BasicBlock]map[string]bool{}, drySorts: map[string]string{}, dryStructs: map[string]types.Type{}, repo: repo}
+		dryMemo: map[*ssa.Function]map[*ssa.BasicBlock]map[string]bool{}, dryOld: map[*ssa.Function]map[string]bool{}, dryOldB: map[*ssa.Function]map[*ssa.BasicBlock]map[string]bool{}, drySorts: map[string]string{}, dryStructs: map[string]types.Type{}, repo: repo}
 	if len(pkgs) > 0 {
 		p.fset = pkgs[0].Fset
 	}
@@ -265,6 +267,11 @@ func (p *Program) dryWrittenFor(fn *ssa.Function) map[*ssa.BasicBlock]map[string
 		g.execBody(st, "true")
 	}()
 	p.dryMemo[fn] = g.written
+	p.dryOld[fn] = g.writtenOld
+	p.dryOldB[fn] = g.writtenOldB
+	if p.dryOldB[fn] == nil {
+		p.dryOldB[fn] = map[*ssa.BasicBlock]map[string]bool{}
+	}
 	for k, v := range ctx.compSort {
 		p.drySorts[k] = v // component sorts are global (derived from Go types)
 	}
@@ -336,6 +343,7 @@ func (p *Program) verifyFunction(key string) *FuncResult {
 	res.Ctx = ctx
 	g := newGen(p, fn, fc, ctx)
 	g.dryWritten = dryW
+	g.dryOldB = p.dryOldB[fn]
 	func() {
 		defer func() {
 			if r := recover(); r != nil {
@@ -511,7 +519,13 @@ func (p *Program) verifyFunction(key string) *FuncResult {
 			}
 			// frame: without a modifies clause the function must leave pre-existing heap untouched
 			if !fc.HasModifies && !fc.Extern {
-				g.frameObligations(key)
+				g.frameObligations(key, nil)
+			} else if fc.HasModifies && !fc.Extern && !fc.Trusted {
+				// with a modifies clause: everything the body writes outside the listed components
+				// must be unchanged on pre-existing objects
+				if allowed, all := g.modifiesAllowed(fc); !all {
+					g.frameObligations(key, allowed)
+				}
 			}
 		}
 		// cover and canary: some return is reachable
@@ -535,11 +549,13 @@ func (g *gen) obligeClauseNoAssume(kind, name string, cl Clause, reach, cond str
 
 // frameObligations: components written by the function but not listed in `modifies`
 // must be unchanged on previously allocated references.
-func (g *gen) frameObligations(key string) {
+func (g *gen) frameObligations(key string, allowed map[string]bool) {
 	touched := map[string]bool{}
 	for _, w := range g.written {
 		for c := range w {
-			touched[c] = true
+			if !allowed[c] {
+				touched[c] = true
+			}
 		}
 	}
 	var comps []string
@@ -573,6 +589,51 @@ func (g *gen) frameObligations(key string) {
 		g.oblige("frame", fmt.Sprintf("%s.frame.%s", key, c), "heap component "+c+" unchanged on pre-existing objects (no modifies clause)", token.NoPos, "true", and(conj...))
 		g.ctx.assumes = g.ctx.assumes[:n]
 	}
+}
+
+// modifiesAllowed resolves the modifies clause of the function under verification to heap components.
+// all is true for `modifies *`.
+func (g *gen) modifiesAllowed(fc *FuncContract) (allowed map[string]bool, all bool) {
+	allowed = map[string]bool{}
+	for _, m := range fc.Modifies {
+		switch {
+		case m == "*":
+			all = true
+		case g.cs.GhostVars[m] != "":
+			allowed[g.ghostComp(m)] = true
+		case strings.HasPrefix(m, "elems_of(") && strings.HasSuffix(m, ")"):
+			pn := m[len("elems_of(") : len(m)-1]
+			for i, p := range g.fn.Params {
+				name := p.Name()
+				if i < len(fc.ParamNames) {
+					name = fc.ParamNames[i]
+				}
+				if name != pn && p.Name() != pn {
+					continue
+				}
+				// the components a havoc through this parameter reaches
+				scratch := g.entry.clone()
+				saved := g.curBlock
+				g.curBlock = nil
+				g.havocThrough(g.vals[p], p.Type(), scratch, "true", 0)
+				g.curBlock = saved
+				for c, t := range scratch {
+					if g.entry[c] != t {
+						allowed[c] = true
+					}
+				}
+			}
+		default:
+			for _, c := range g.resolveModifies(m, fc) {
+				allowed[c] = true
+			}
+		}
+	}
+	if all {
+		// ghosts are covered by `*` as well
+		return allowed, true
+	}
+	return allowed, false
 }
 
 func (g *gen) emitAxiomsFor(fc *FuncContract) {
